@@ -16,21 +16,32 @@ the number of column widths: carrying the list style along changes no element. -
 theorem odt_reader_elements (content : Node) (styles : Option Node) :
     (openReader content styles).elements.map (·.elem) = Odt.elements content styles := by
   unfold openReader Odt.elements
-  have := walkNodeX_erase (allStyles content styles) content { inBody := false, listStyle := [], acc := [] }
-  simp only [eraseW, List.map_nil] at this
-  have h2 := congrArg Walk.acc this
-  simpa using h2
+  have := congrArg Walk.acc (bodyWalkX_erase content styles)
+  simpa [eraseW] using this
+
+/-- **odt_open_elements**. Whether `Open` succeeds depends on content.xml alone (through the
+style names the headings resolve - not on the master pages), and when it does the element list
+is `Odt.elements` - the function the theorems of `Props/C16.lean` are about. -/
+theorem odt_open_elements (content : Node) (styles : Option Node) :
+    (openReader? content styles).map (·.elements.map (·.elem)) = openElements content styles := by
+  unfold openReader? openElements
+  have hf : (bodyWalkX content styles).failed = (bodyWalk content styles).failed :=
+    congrArg Walk.failed (bodyWalkX_erase content styles)
+  rw [hf]
+  split
+  · rfl
+  · simp [odt_reader_elements]
 
 /-- **odt_list_style_carried**. Inside the text body a `text:list` that has a style name sets
 the style its items are written in; a list without one keeps the style of the list before it
 (the reader's `currentListStyle`).
 RESTATED: for a list that is decoded to its end (`hdec`: no paragraph of its items nests
 `text:span` / `text:a` deeper than `maxInlineDepth`) while the loop is still reading (`hd`).
-A list the decoder gives up in sets the style all the same and contributes no item
+A list the decoder gives up in ends `parseBodyElements` with the depth error
 (`odt_list_gives_up`). -/
 theorem odt_list_style_carried (defs : List StyleDef) (tag : Str) (attrs : List (Str × Str)) (kids : List Node) (w : WalkX)
-    (hb : w.inBody = true) (hd : w.done = false) (ht : tag ≠ sOfficeText) (hl : localName tag = sList)
-    (hdec : (residualList .list kids).isNone = true) :
+    (hb : w.inBody = true) (hd : w.failed = false) (ht : tag ≠ sOfficeText) (hl : localName tag = sList)
+    (hdec : decodes .list kids = true) :
     walkNodeX defs (.elem tag attrs kids) w =
       { w with listStyle := listStyleAfter attrs w.listStyle,
                acc := w.acc ++ (listElems (.elem tag attrs kids)).map fun e => ⟨e, listStyleAfter attrs w.listStyle, 0⟩ } := by
@@ -41,27 +52,23 @@ theorem odt_list_style_carried (defs : List StyleDef) (tag : Str) (attrs : List 
   simp only [walkNodeX, hne, hb, hd, hl, Bool.false_eq_true, if_false, Bool.not_true]
   have h1 : (sList == sP) = false := by decide
   have h2 : (sList == sH) = false := by decide
-  simp only [h1, h2, Bool.false_eq_true, if_false, BEq.rfl, if_true]
-  rw [scanX_none defs .list kids _ hdec]
+  simp only [h1, h2, hdec, Bool.false_eq_true, if_false, BEq.rfl, if_true]
 
-/-- a list the decoder gives up in: the style is set, no item is recorded, the walk reads on to
-the end of the paragraph it happened in and stops there -/
-theorem odt_list_gives_up (defs : List StyleDef) (tag : Str) (attrs : List (Str × Str)) (kids : List Node) (w w' : WalkX)
-    (hb : w.inBody = true) (hd : w.done = false) (ht : tag ≠ sOfficeText) (hl : localName tag = sList)
-    (hs : scanListX defs .list kids { w with listStyle := listStyleAfter attrs w.listStyle } = some w') :
-    walkNodeX defs (.elem tag attrs kids) w = { w' with done := true } := by
+/-- **odt_list_gives_up**. RESTATED (was: the style is set, no item is recorded, the walk reads
+on to the end of the paragraph it happened in and stops there without an error): a list the
+decoder gives up in records no item and `parseBodyElements` returns the depth error. -/
+theorem odt_list_gives_up (defs : List StyleDef) (tag : Str) (attrs : List (Str × Str)) (kids : List Node) (w : WalkX)
+    (hb : w.inBody = true) (hd : w.failed = false) (ht : tag ≠ sOfficeText) (hl : localName tag = sList)
+    (hdec : decodes .list kids = false) :
+    walkNodeX defs (.elem tag attrs kids) w = { w with listStyle := listStyleAfter attrs w.listStyle, failed := true } := by
   have hne : (tag == sOfficeText) = false := by
     cases h : tag == sOfficeText
     · rfl
     · exact absurd (by simpa using h) ht
-  obtain ⟨ib, dn, ls, acc⟩ := w
-  simp only at hb hd hs
-  subst hb; subst hd
-  simp only [walkNodeX, hne, hl, Bool.false_eq_true, if_false, Bool.not_true]
+  simp only [walkNodeX, hne, hb, hd, hl, Bool.false_eq_true, if_false, Bool.not_true]
   have h1 : (sList == sP) = false := by decide
   have h2 : (sList == sH) = false := by decide
-  simp only [h1, h2, Bool.false_eq_true, if_false, BEq.rfl, if_true]
-  rw [hs]
+  simp only [h1, h2, hdec, Bool.false_eq_true, if_false, BEq.rfl, if_true]
 
 example : listStyleAfter [([116, 101, 120, 116, 58, 115, 116, 121, 108, 101, 45, 110, 97, 109, 101], [76, 49])] [76, 50] = [76, 49]
     ∧ listStyleAfter [] [76, 50] = [76, 50] := by decide
@@ -175,29 +182,188 @@ theorem startCol_lt_modelColCount (rows : List (List Cell)) (r i : Nat) (row : L
   unfold modelColCount
   omega
 
+/-- which declared column counts `ToModelTable` believes: rows x declared columns within
+`maxTableGridCells` = 2^20 (the code divides: `len(pt.Rows) > maxTableGridCells/colCount`) -/
+theorem declaredCols_within (n cols : Nat) (h : n * cols ≤ 1048576) : declaredCols n cols = cols := by
+  unfold declaredCols maxTableGridCells
+  by_cases hc : cols > 0
+  · have : ¬ (n > 1048576 / cols) := by
+      have := (Nat.le_div_iff_mul_le hc).mpr h
+      omega
+    simp [hc, this]
+  · have : cols = 0 := by omega
+    simp [this]
+
+theorem declaredCols_beyond (n cols : Nat) (h : n * cols > 1048576) : declaredCols n cols = 0 := by
+  unfold declaredCols maxTableGridCells
+  have hc : cols > 0 := by
+    cases cols with
+    | zero => simp at h
+    | succ k => omega
+  have : n > 1048576 / cols := by
+    cases Nat.lt_or_ge (1048576 / cols) n with
+    | inl hlt => exact hlt
+    | inr hge =>
+      have := (Nat.le_div_iff_mul_le hc).mp hge
+      omega
+  simp [hc, this]
+
+/-- **odt_grid_declared_within / odt_grid_declared_beyond / odt_grid_undeclared**: the columns
+of the document-model grid. The `table:table-column` elements are believed exactly when rows x
+declared columns ≤ 2^20; beyond that, and for a table that declares none, the grid is as wide as
+the widest row counted from its cells (a covered placeholder one column, a cell its span). -/
+theorem odt_grid_declared_within (rows : List (List Cell)) (cols : Nat) (hc : cols ≠ 0)
+    (h : rows.length * cols ≤ 1048576) : gridCols rows cols = cols := by
+  unfold gridCols
+  rw [declaredCols_within _ _ h]
+  simp [hc]
+
+theorem odt_grid_declared_beyond (rows : List (List Cell)) (cols : Nat)
+    (h : rows.length * cols > 1048576) : gridCols rows cols = modelColCount rows := by
+  unfold gridCols
+  rw [declaredCols_beyond _ _ h]
+  simp
+
+theorem odt_grid_undeclared (rows : List (List Cell)) : gridCols rows 0 = modelColCount rows := by
+  unfold gridCols
+  rw [declaredCols_within _ 0 (by omega)]
+  simp
+
+/-- **odt_model_grid_cells** (every table, every declared column count). The document-model
+table `ToModelTable` allocates has one row per parsed row and `gridCols` cells in each:
+rows x `gridCols` cells in all. -/
+theorem odt_model_grid_cells (rows : List (List Cell)) (cols : Nat) :
+    (toModelTable rows cols).map List.length = List.replicate rows.length (gridCols rows cols)
+    ∧ gridCells (toModelTable rows cols) = rows.length * gridCols rows cols := by
+  unfold toModelTable
+  by_cases hne : rows = []
+  · subst hne; simp [gridCells]
+  · simp only [hne, if_false]
+    exact ⟨model_grid_shape gridWidth (fun c : Cell => c.covered) mcellOf _ rows,
+      model_grid_cells gridWidth (fun c : Cell => c.covered) mcellOf _ rows⟩
+
+/-- **odt_model_grid_bounded** (bounded work, EVERY input). Whatever the `table:table-column`
+elements declare - each repetition is bounded by 1024, their number is not -, the document-model
+grid holds at most 2^20 cells, or no more than rows x the widest row counted from its cells:
+the declared columns never multiply it. (Before the repair 3b0df50:
+`odt_model_grid_pinned_counterexample`.) -/
+theorem odt_model_grid_bounded (rows : List (List Cell)) (cols : Nat) :
+    gridCells (toModelTable rows cols) ≤ max 1048576 (rows.length * modelColCount rows) := by
+  rw [(odt_model_grid_cells rows cols).2]
+  by_cases h : rows.length * cols ≤ 1048576
+  · by_cases hc : cols = 0
+    · subst hc; rw [odt_grid_undeclared]; omega
+    · rw [odt_grid_declared_within rows cols hc h]; omega
+  · rw [odt_grid_declared_beyond rows cols (by omega)]; omega
+
+theorem parseRows_colSpan_pos (tbl : Node) : ∀ row ∈ parseRows tbl, ∀ c ∈ row, 1 ≤ c.colSpan := by
+  intro row hrow c hc
+  simp only [parseRows, List.mem_map] at hrow
+  obtain ⟨tr, _, rfl⟩ := hrow
+  simp only [List.mem_map] at hc
+  obtain ⟨tc, _, rfl⟩ := hc
+  exact (C16.odt_span_bounded tc).1.1
+
+theorem parseTable_length (tbl : Node) : (parseTable tbl).length = (parseRows tbl).length := by
+  unfold parseTable processRowSpans
+  rw [spanRows_length, limit_length]
+
+/-- **odt_model_grid_bounded_authored** (bounded work, every `table:table` as authored). The
+grid `Document()` allocates for an ODT table - rows, spans, declared columns and row-span
+placeholders taken together - holds at most 2 x 2^20 cells, or no more than rows x the longest
+row counted in `table:table-cell` elements: no attribute value multiplies it. (The factor 2:
+placeholders pushed in front of a row can move its last cell across the right edge of the
+width `limitTableGrid` judged the table by; a cell is never wider than that width.) -/
+theorem odt_model_grid_bounded_authored (tbl : Node) :
+    gridCells (toModelTable (parseTable tbl) (columnCount tbl))
+      ≤ max (2 * 1048576) ((parseRows tbl).length * widest (parseRows tbl)) := by
+  have hb := odt_model_grid_bounded (parseTable tbl) (columnCount tbl)
+  rw [parseTable_length] at hb
+  have hpos := parseRows_colSpan_pos tbl
+  have hlive := parseRows_live tbl
+  have hflat : processRowSpans (resetSpans (parseRows tbl)) = resetSpans (parseRows tbl) := by
+    apply processRowSpans_flat
+    intro row hrow c hc
+    simp only [resetSpans, List.mem_map] at hrow
+    obtain ⟨r0, _, rfl⟩ := hrow
+    simp only [List.mem_map] at hc
+    obtain ⟨c0, _, rfl⟩ := hc
+    exact ⟨Nat.le_refl 1, Nat.le_refl 1⟩
+  have hreset : modelColCount (resetSpans (parseRows tbl)) = widest (resetSpans (parseRows tbl)) := by
+    apply modelColCount_unit
+    intro row hrow c hc
+    simp only [resetSpans, List.mem_map] at hrow
+    obtain ⟨r0, hr0, rfl⟩ := hrow
+    simp only [List.mem_map] at hc
+    obtain ⟨c0, hc0, rfl⟩ := hc
+    simp [gridWidth, hlive r0 hr0 c0 hc0]
+  have hwidest : widest (resetSpans (parseRows tbl)) = widest (parseRows tbl) := by
+    unfold widest resetSpans
+    rw [List.foldl_map]
+    simp
+  have hw : (parseRows tbl).length * modelColCount (parseTable tbl)
+      ≤ max (2 * 1048576) ((parseRows tbl).length * widest (parseRows tbl)) := by
+    unfold parseTable
+    by_cases hs : hasSpans (parseRows tbl) = true
+    · by_cases hin : (parseRows tbl).length * colCount (parseRows tbl) ≤ maxTableGridCells
+      · rw [limit_within _ hin]
+        have h2 := processRowSpans_width (parseRows tbl) hlive
+        have h3 : (parseRows tbl).length * modelColCount (processRowSpans (parseRows tbl))
+            ≤ (parseRows tbl).length * (2 * colCount (parseRows tbl)) := Nat.mul_le_mul_left _ h2
+        have h4 : (parseRows tbl).length * (2 * colCount (parseRows tbl)) = 2 * ((parseRows tbl).length * colCount (parseRows tbl)) := by
+          rw [Nat.mul_left_comm]
+        unfold maxTableGridCells at hin
+        omega
+      · rw [limit_beyond _ hs (by omega), hflat, hreset, hwidest]
+        omega
+    · have hs' : hasSpans (parseRows tbl) = false := by simpa using hs
+      rw [limit_nospans _ hs']
+      have hsame : processRowSpans (parseRows tbl) = parseRows tbl := by
+        apply processRowSpans_flat
+        intro row hrow c hc
+        exact ⟨hpos row hrow c hc, (hasSpans_false _ hs' row hrow c hc).2⟩
+      rw [hsame]
+      have : modelColCount (parseRows tbl) = widest (parseRows tbl) := by
+        apply modelColCount_unit
+        intro row hrow c hc
+        have h1 := hpos row hrow c hc
+        have h2 := (hasSpans_false _ hs' row hrow c hc).1
+        simp only [gridWidth, hlive row hrow c hc, Bool.false_eq_true, if_false]
+        omega
+      rw [this]
+      omega
+  omega
+
 /-- **odt_model_table_cell**. In the table `ToModelTable` hands to the document model, the
 authored cell number `i` of parsed row `r` (no covered placeholder, at least one column wide)
 stands at row `r`, column = the grid widths of the cells before it in its row added up (a
 covered placeholder counts one column, an authored cell its column span), with its text, its
-row span and its column span - provided it starts inside the grid (the `table:table-column`
-elements may declare fewer columns; without any it always does). -/
+row span and its column span - provided it starts inside the grid.
+RESTATED with the exact condition `hcc`: the table declares no columns, or rows x declared
+columns exceed 2^20 (in both cases the columns are counted from the cells and every cell starts
+inside the grid), or the cell starts before the declared number of columns. -/
 theorem odt_model_table_cell (rows : List (List Cell)) (cols r i : Nat) (row : List Cell) (c : Cell)
     (hr : rows[r]? = some row) (hc : row[i]? = some c) (hcov : c.covered = false) (hw : 1 ≤ c.colSpan)
-    (hcc : cols = 0 ∨ startCol gridWidth row i < cols) :
+    (hcc : cols = 0 ∨ rows.length * cols > 1048576 ∨ startCol gridWidth row i < cols) :
     ((toModelTable rows cols)[r]?).bind (·[startCol gridWidth row i]?)
       = some { text := c.text, rowSpan := c.rowSpan, colSpan := c.colSpan } := by
   have hne : rows ≠ [] := by intro h; rw [h] at hr; simp at hr
   have hgw : 1 ≤ gridWidth c := by simp [gridWidth, hcov, hw]
   unfold toModelTable
   simp only [hne, if_false]
-  have hlt : startCol gridWidth row i < (if cols ≠ 0 then cols else modelColCount rows) := by
-    by_cases hg : cols = 0
-    · simp only [hg, ne_eq, not_true_eq_false, if_false]
-      exact startCol_lt_modelColCount rows r i row c hr hc hgw
-    · simp only [hg, ne_eq, not_false_eq_true, if_true]
-      cases hcc with
-      | inl h => exact absurd h hg
-      | inr h => exact h
+  have hlt : startCol gridWidth row i < gridCols rows cols := by
+    have hm := startCol_lt_modelColCount rows r i row c hr hc hgw
+    cases hcc with
+    | inl h => subst h; rw [odt_grid_undeclared]; exact hm
+    | inr h =>
+      cases h with
+      | inl h => rw [odt_grid_declared_beyond rows cols h]; exact hm
+      | inr h =>
+        by_cases hb : rows.length * cols ≤ 1048576
+        · by_cases h0 : cols = 0
+          · subst h0; omega
+          · rw [odt_grid_declared_within rows cols h0 hb]; exact h
+        · rw [odt_grid_declared_beyond rows cols (by omega)]; exact hm
   exact model_grid_cell gridWidth (fun c : Cell => c.covered) mcellOf _ rows r i row c hr hc hcov hgw hlt
 
 /-- non-vacuity: the 2x2 merge of `Props/C16.lean` after `processRowSpans`, in the document model -/
@@ -205,6 +371,55 @@ example :
     let c (t : Str) (cs rs : Nat) : Cell := { text := t, colSpan := cs, rowSpan := rs, covered := false }
     toModelTable (processRowSpans [[c [65] 2 2, c [66] 1 1], [c [67] 1 1]]) 0
       = [[⟨[65], 2, 2⟩, blankCell, ⟨[66], 1, 1⟩], [blankCell, blankCell, ⟨[67], 1, 1⟩]] := by decide +kernel
+
+/-- one declared column fewer than the cells take: the grid is two columns wide and the third
+cell of the first row is left out; declared columns out of proportion (2 x 600000 > 2^20) are
+not believed and the grid is as wide as the cells -/
+example :
+    let c (t : Str) : Cell := { text := t, colSpan := 1, rowSpan := 1, covered := false }
+    toModelTable [[c [65], c [66], c [67]], [c [68]]] 2 = [[⟨[65], 1, 1⟩, ⟨[66], 1, 1⟩], [⟨[68], 1, 1⟩, blankCell]]
+    ∧ toModelTable [[c [65], c [66], c [67]], [c [68]]] 600000
+        = [[⟨[65], 1, 1⟩, ⟨[66], 1, 1⟩, ⟨[67], 1, 1⟩], [⟨[68], 1, 1⟩, blankCell, blankCell]] := by decide +kernel
+
+/-- the edge: 1024 rows x 1024 declared columns = 2^20 exactly - the declared columns size the
+grid; one row more, or one column more, and the columns are counted from the cells (here: one) -/
+def oneCell : Cell := { text := [65], colSpan := 1, rowSpan := 1, covered := false }
+
+example : gridCols (List.replicate 1024 [oneCell]) 1024 = 1024
+    ∧ gridCols (List.replicate 1025 [oneCell]) 1024 = modelColCount (List.replicate 1025 [oneCell])
+    ∧ gridCols (List.replicate 1024 [oneCell]) 1025 = modelColCount (List.replicate 1024 [oneCell])
+    ∧ modelColCount (List.replicate 1025 [oneCell]) = 1 ∧ modelColCount (List.replicate 1024 [oneCell]) = 1 := by
+  refine ⟨?_, ?_, ?_, by decide +kernel, by decide +kernel⟩
+  · exact odt_grid_declared_within _ _ (by decide) (by rw [List.length_replicate]; decide)
+  · exact odt_grid_declared_beyond _ _ (by rw [List.length_replicate]; decide)
+  · exact odt_grid_declared_beyond _ _ (by rw [List.length_replicate]; decide)
+
+/-- the size of the grid before the repair: rows x declared columns, whatever their number -/
+theorem toModelTableOld_cells (rows : List (List Cell)) (cols : Nat) (hc : cols ≠ 0) :
+    gridCells (toModelTableOld rows cols) = rows.length * cols := by
+  unfold toModelTableOld
+  by_cases hne : rows = []
+  · subst hne; simp [gridCells]
+  · simp only [hne, hc, if_false, ne_eq, not_false_eq_true, if_true]
+    exact model_grid_cells gridWidth (fun c : Cell => c.covered) mcellOf _ rows
+
+/-- **odt_model_grid_pinned_counterexample**. The witness of the repaired defect (3b0df50): 128
+rows of one cell under 128 `table:table-column` elements repeated 1024 times each - 131072
+declared columns, an 850-byte document. Before the repair `ToModelTable` allocated
+128 x 131072 = 16.7 million cells; now it allocates 128, one per row, and the bound of
+`odt_model_grid_bounded` holds. -/
+theorem odt_model_grid_pinned_counterexample :
+    gridCells (toModelTableOld (List.replicate 128 [oneCell]) 131072) = 16777216
+    ∧ ¬ gridCells (toModelTableOld (List.replicate 128 [oneCell]) 131072)
+        ≤ max 1048576 ((List.replicate 128 [oneCell]).length * modelColCount (List.replicate 128 [oneCell]))
+    ∧ gridCells (toModelTable (List.replicate 128 [oneCell]) 131072) = 128 := by
+  have hm : modelColCount (List.replicate 128 [oneCell]) = 1 := by decide +kernel
+  have hold : gridCells (toModelTableOld (List.replicate 128 [oneCell]) 131072) = 16777216 := by
+    rw [toModelTableOld_cells _ _ (by decide), List.length_replicate]
+  refine ⟨hold, ?_, ?_⟩
+  · rw [hold, hm, List.length_replicate]
+    decide
+  · rw [(odt_model_grid_cells _ _).2, odt_grid_declared_beyond _ _ (by rw [List.length_replicate]; decide), hm, List.length_replicate]
 
 /-! ### header and footer of the master pages -/
 
@@ -263,20 +478,8 @@ def shownText (e : Elem) : List Str :=
   | .para p => [p.text]
   | .table rows => tableTextCells (rrows rows)
 
-/-- **odt_end_to_end**. For every content.xml tree whose `office:text` sits in `office:body`
-(nothing else named `office:text`) and every styles.xml: the reader's elements are what the
-children of `office:text` stand for, in source order (`elemsOfList`: paragraphs, headings,
-the items of lists with their nesting level, tables; wrappers in place); `Text()` shows their
-texts in that order, so does the Markdown buffer, of which `Markdown()` cuts only newlines at
-the ends; the page of `Document()`, lists taken apart, is these elements in that order with
-their heading levels, list levels and table grids.
-RESTATED (was: for every such tree): with `hdec` - every body element is decoded to its end,
-i.e. no paragraph of a body element nests `text:span` / `text:a` deeper than `maxInlineDepth`
-= 10000 (`C16Bounds.odt_decodes_iff_depth`). A document beyond that bound is NOT presented in
-full: `C16Bounds.odt_truncated` proves that the reader then holds the elements before the
-paragraph it gave up in, what stands behind the refused tag inside that paragraph, and nothing
-of what follows - without any error. -/
-theorem odt_end_to_end (docTag bodyTag : Str) (da ba ta : List (Str × Str)) (pre kids post : List Node) (styles : Option Node)
+/-- the statement of `odt_end_to_end` about the reader `Open` builds -/
+theorem odt_reader_end_to_end (docTag bodyTag : Str) (da ba ta : List (Str × Str)) (pre kids post : List Node) (styles : Option Node)
     (hdoc : docTag ≠ sOfficeText) (hbody : bodyTag ≠ sOfficeText)
     (hpre : noTextList pre = true) (hpost : noTextList post = true) (hk : noTextList kids = true)
     (hdec : decodesList kids = true) :
@@ -309,6 +512,73 @@ theorem odt_end_to_end (docTag bodyTag : Str) (da ba ta : List (Str × Str)) (pr
       rw [← hels, List.map_map]; rfl
     rw [hmd] at this
     exact this
+
+/-- **odt_end_to_end**. For every content.xml tree whose `office:text` sits in `office:body`
+(nothing else named `office:text`) and every styles.xml: `Open` succeeds and the reader's
+elements are what the children of `office:text` stand for, in source order (`elemsOfList`:
+paragraphs, headings, the items of lists with their nesting level, tables; wrappers in place);
+`Text()` shows their texts in that order, so does the Markdown buffer, of which `Markdown()` cuts
+only newlines at the ends; the page of `Document()`, lists taken apart, is these elements in that
+order with their heading levels, list levels and table grids.
+RESTATED (was: for every such tree; then: with `hdec`, and beyond the bound a silently truncated
+document): with `hdec` - every body element is decoded to its end, i.e. no paragraph of a body
+element nests `text:span` / `text:a` deeper than `maxInlineDepth` = 10000
+(`C16Bounds.odt_decodes_iff_depth`) - `Open` succeeds and the reader presents the body as stated.
+Beyond the bound `odt_refused`: `Open` returns an error, nothing is presented - a document is
+shown in full or not at all. -/
+theorem odt_end_to_end (docTag bodyTag : Str) (da ba ta : List (Str × Str)) (pre kids post : List Node) (styles : Option Node)
+    (hdoc : docTag ≠ sOfficeText) (hbody : bodyTag ≠ sOfficeText)
+    (hpre : noTextList pre = true) (hpost : noTextList post = true) (hk : noTextList kids = true)
+    (hdec : decodesList kids = true) :
+    let content : Node := .elem docTag da (pre ++ [.elem bodyTag ba [.elem sOfficeText ta kids]] ++ post)
+    ∃ rd, openReader? content styles = some rd ∧
+      (let els := elemsOfList (allStyles content styles) kids
+       rd.elements.map (·.elem) = els
+       ∧ InOrder (els.map shownText).flatten (text rd)
+       ∧ InOrder (els.map (mdTexts rd {})).flatten (markdownRaw rd {} {})
+       ∧ (∃ a b, markdownRaw rd {} {} = a ++ markdown rd ++ b ∧ (∀ c ∈ a, c = 10) ∧ (∀ c ∈ b, c = 10))
+       ∧ flattenDoc (document rd) = rd.elements.filterMap entryOf) := by
+  intro content
+  refine ⟨openReader content styles, ?_, odt_reader_end_to_end docTag bodyTag da ba ta pre kids post styles hdoc hbody hpre hpost hk hdec⟩
+  have hf : (bodyWalkX content styles).failed = (bodyWalk content styles).failed :=
+    congrArg Walk.failed (bodyWalkX_erase content styles)
+  rw [C16.odt_body_walk_within docTag bodyTag da ba ta pre kids post styles hdoc hbody hpre hpost hk hdec] at hf
+  unfold openReader?
+  rw [hf]
+  rfl
+
+/-- **odt_refused**. A content.xml in which a paragraph of a body element nests `text:span` /
+`text:a` deeper than `maxInlineDepth` is refused: `odt.Open` returns the error of
+`parseContent`, so there is no element list and no view (the three `tabula.Open(f)` views return
+the error) - what `docx_refused` says of the DOCX reader. -/
+theorem odt_refused (docTag bodyTag : Str) (da ba ta : List (Str × Str)) (pre kids post : List Node) (styles : Option Node)
+    (hdoc : docTag ≠ sOfficeText) (hbody : bodyTag ≠ sOfficeText)
+    (hpre : noTextList pre = true) (hk : noTextList kids = true)
+    (hdec : decodesList kids = false) :
+    let content : Node := .elem docTag da (pre ++ [.elem bodyTag ba [.elem sOfficeText ta kids]] ++ post)
+    openElements content styles = none ∧ openReader? content styles = none := by
+  intro content
+  have h1 := C16.odt_elements_refused docTag bodyTag da ba ta pre kids post styles hdoc hbody hpre hk hdec
+  have hf : (bodyWalkX content styles).failed = (bodyWalk content styles).failed :=
+    congrArg Walk.failed (bodyWalkX_erase content styles)
+  unfold openElements openReader?
+  rw [hf, h1]
+  exact ⟨rfl, rfl⟩
+
+/-- **odt_headers_never_leak** through `Open`: whether the package opens does not depend on the
+master pages' header and footer texts (`openReader?` reads them after the body and never fails on
+them), and with the default options neither do the three views. -/
+theorem odt_headers_never_leak_open (content : Node) (styles : Option Node) (h f : List Str) (o : MdOptions) :
+    (openReader? content styles).map text = (openReader? content styles).map (fun rd => text { rd with headerTexts := h, footerTexts := f })
+    ∧ (openReader? content styles).map (markdownWithRAGOptions · {} o)
+        = (openReader? content styles).map (fun rd => markdownWithRAGOptions { rd with headerTexts := h, footerTexts := f } {} o)
+    ∧ (openReader? content styles).map document = (openReader? content styles).map (fun rd => document { rd with headerTexts := h, footerTexts := f }) := by
+  cases openReader? content styles with
+  | none => exact ⟨rfl, rfl, rfl⟩
+  | some rd =>
+    have := odt_headers_never_leak rd h f o
+    simp only [Option.map_some]
+    exact ⟨congrArg some this.1, congrArg some this.2.1, congrArg some this.2.2⟩
 
 /-! ### the public API layer -/
 
